@@ -742,6 +742,17 @@ def byte_guard(rep, prog, rule="BYTE-GUARD", crate="jiff", floor=15):
     if "byte" not in fns or "bump" not in fns:
         rep.violation(rule, "anchor", "anchor missing: shared::posix::Parser::byte / bump", "src/shared/posix.rs")
         return
+    # the primitives the typestate relies on are what it takes them for
+    prim = {m: show(Terms(fns[m]).returns(), maxd=6) for m in ("bump", "is_done", "maybe_byte", "byte") if m in fns}
+    want = {"bump": ("un(Not, is_done(self))",), "is_done": ("bin(Eq, pos(self), len(self.tz))",),
+            "maybe_byte": ("get(self.tz, pos(self))",), "byte": ("index(self.tz, pos(self))",)}
+    off = [m for m, ws in want.items() if not all(w in prim.get(m, "").replace("bin(Ge, pos(self)", "bin(Eq, pos(self)") for w in ws)]
+    if off:
+        rep.violation(rule, "_primitives", "the cursor primitives are no longer what the typestate assumes (bump returns false or "
+                      "!is_done() after moving; is_done is pos == len; maybe_byte is tz.get(pos); byte is tz[pos]): %s"
+                      % {m: prim.get(m) for m in off}, "src/shared/posix.rs")
+    else:
+        rep.ok(rule, "_primitives", how="bump -> false | !is_done(); is_done = (pos == len); maybe_byte = tz.get(pos); byte = tz[pos]")
     ctx = {}
     for m, g in fns.items():
         cfg = mir.CFG(g)
@@ -798,4 +809,51 @@ def byte_guard(rep, prog, rule="BYTE-GUARD", crate="jiff", floor=15):
                       "parse_posix_date, parse_posix_datetime, parse_rule and the two abbreviation parsers do): the matcher is blind", "src/shared/posix.rs")
     rep.floor(rule + " byte()-dependent call sites", n, floor)
     rep.ok(rule, "_summary", how="methods that need a byte at entry: %s" % sorted(m for m, v in requires.items() if v), nontrivial=False)
+    return n
+
+
+# ------------------------------------------------------------------------------------------------------------------
+def _callers_of(prog, fn_name):
+    short = fn_name.split("::", 1)[1]
+    out = set()
+    for cn, cg in prog.fns.items():
+        if not cn.startswith("jiff::"):
+            continue
+        for _bi, t in mir.iter_calls(cg):
+            if t.get("path") == short:
+                out.add(cn)
+                break
+    return out
+
+
+def caller_ratchet(rep, prog, rule="CALLER-SET"):
+    rep.rule(rule, "a reviewed reason in reviewed/panics.tsv that argues from the callers of the function (\"all four callers pass ..\", "
+                   "\"every caller checks ..\") is valid for the callers that existed when it was written: reviewed/callers.tsv "
+                   "freezes, per such site, the set of functions that call it, and a caller that is not in that set is reported - "
+                   "the reason has to be re-read for it. (Four seeded changes slipped through reasons of this form; the sites they "
+                   "used are call-site obligations now, this rule covers the remaining ones against NEW callers. A changed guard in "
+                   "an existing caller is not seen by it.)")
+    reviewed = load_tsv("panics")
+    frozen = load_tsv("callers")
+    n = 0
+    for key, reason in sorted(reviewed.items()):
+        if not re.search(r"\bcallers?\b", reason):
+            continue
+        fn = key.split(" | ", 1)[0]
+        if fn not in prog.fns:
+            continue                      # not in this configuration
+        n += 1
+        now = _callers_of(prog, fn)
+        if key not in frozen:
+            rep.violation(rule, key, "the reviewed reason argues from the callers but reviewed/callers.tsv has no frozen caller set for it "
+                          "(current callers: %s)" % sorted(now), prog.fns[fn].loc())
+            continue
+        was = set(x for x in frozen[key].split(" ; ") if x and x != "-")
+        new = sorted(now - was)
+        if new:
+            rep.violation(rule, key, "new caller(s) %s of a function whose panic site is discharged by a reason about its callers: %s"
+                          % (new, reason[:160]), prog.fns[fn].loc())
+        else:
+            rep.ok(rule, key, how="%d caller(s), all in the reviewed set" % len(now), loc=prog.fns[fn].loc())
+    rep.floor(rule + " caller-dependent reviewed sites", n, 10)
     return n
